@@ -674,6 +674,7 @@ func run(tier core.Tier) *core.Report {
 	rep.Set("cases_skipped_inadmissible_submission_order", skipped)
 	rep.Set("distinct_blocks_produced", len(outcomes))
 	rep.Set("consensus_object", ks)
+	awardHistories(rep, tier)
 	rep.Set("replica_consensus_checks", int(replicaConsensusChecks))
 	rep.Set("transactions_arrived_inside_CalculateBlock", int(arrivalsTotal))
 	rep.Set("bound", fmt.Sprintf("%d pool families, every submission order, every iteration order of the 3 rewritten pool map ranges (site %s: identity+reverse for 4-tx pools in quick)", len(families), sites[1]))
@@ -684,6 +685,18 @@ func run(tier core.Tier) *core.Report {
 }
 
 func replay(c json.RawMessage) (bool, string, error) {
+	var ac struct {
+		A *struct {
+			Award   string  `json:"award"`
+			Ratio   string  `json:"ratio"`
+			Gap     int64   `json:"gap"`
+			History []int64 `json:"history"`
+			Height  int64   `json:"height"`
+		} `json:"award_case"`
+	}
+	if json.Unmarshal(c, &ac) == nil && ac.A != nil {
+		return replayAward(ac.A.Award, ac.A.Ratio, ac.A.Gap, ac.A.History, ac.A.Height)
+	}
 	var cs Case
 	if err := json.Unmarshal(c, &cs); err != nil {
 		return false, "", err
